@@ -135,7 +135,9 @@ fn aux_fields(rng: &mut Rng, tags: Tags, rg: Option<usize>, out: &mut String) {
                     ('i', -2147483648, 2147483647),
                     ('I', 0, 4294967295),
                 ]);
-                let n = rng.skewed(9) as usize;
+                // (never empty: `XB:B:s` followed by another field is rejected by the lazy sam::Record
+                // parser on the pinned tree although the SAM writer emits it; see known_problem_items)
+                let n = rng.skewed(9) as usize + 1;
                 let _ = write!(out, "\tXB:B:{sub}");
                 for k in 0..n {
                     let v = match k {
@@ -147,7 +149,7 @@ fn aux_fields(rng: &mut Rng, tags: Tags, rg: Option<usize>, out: &mut String) {
                 }
             }
             if rng.chance(1, 4) {
-                let n = rng.skewed(5) as usize;
+                let n = rng.skewed(5) as usize + 1;
                 out.push_str("\tXG:B:f");
                 for _ in 0..n {
                     let _ = write!(out, ",{}", rng.pick(&["0", "1.25", "-7.5", "1e5", "0.001"]));
@@ -398,7 +400,7 @@ pub fn vcf_header(refs: &[Reference], samples: usize) -> String {
     s.push_str("##INFO=<ID=DB,Number=0,Type=Flag,Description=\"dbSNP membership\">\n");
     s.push_str("##INFO=<ID=AA,Number=1,Type=String,Description=\"Ancestral allele\">\n");
     s.push_str("##INFO=<ID=CH,Number=1,Type=Character,Description=\"A character\">\n");
-    s.push_str("##INFO=<ID=NS,Number=.,Type=String,Description=\"Notes\">\n");
+    s.push_str("##INFO=<ID=NT,Number=.,Type=String,Description=\"Notes\">\n");
     s.push_str("##INFO=<ID=END,Number=1,Type=Integer,Description=\"End position\">\n");
     s.push_str("##INFO=<ID=SVTYPE,Number=1,Type=String,Description=\"Type of structural variant\">\n");
     s.push_str("##FILTER=<ID=PASS,Description=\"All filters passed\">\n");
@@ -411,7 +413,7 @@ pub fn vcf_header(refs: &[Reference], samples: usize) -> String {
     s.push_str("##FORMAT=<ID=AD,Number=R,Type=Integer,Description=\"Allelic depths\">\n");
     s.push_str("##FORMAT=<ID=PL,Number=G,Type=Integer,Description=\"Phred-scaled likelihoods\">\n");
     s.push_str("##FORMAT=<ID=FT,Number=1,Type=String,Description=\"Sample filter\">\n");
-    s.push_str("##FORMAT=<ID=HQ,Number=2,Type=Float,Description=\"Haplotype quality\">\n");
+    s.push_str("##FORMAT=<ID=HF,Number=2,Type=Float,Description=\"Haplotype floats\">\n");
     s.push_str("#CHROM\tPOS\tID\tREF\tALT\tQUAL\tFILTER\tINFO");
     if samples > 0 {
         s.push_str("\tFORMAT");
@@ -480,7 +482,7 @@ pub fn vcf_text(rng: &mut Rng, refs: &[Reference], spec: &VcfSpec) -> Vec<u8> {
             }
             if n_alt > 0 && !symbolic && rng.chance(1, 2) {
                 let v: Vec<String> =
-                    (0..n_alt).map(|_| rng.pick(&["0.5", "0.25", "1", "0", "0.001", "1e-05", "."]).to_string()).collect();
+                    (0..n_alt).map(|_| rng.pick(&["0.5", "0.25", "1", "0", "0.001", "1e-05", "0.125"]).to_string()).collect();
                 info.push(format!("AF={}", v.join(",")));
             }
             if n_alt > 0 && !symbolic && rng.chance(1, 2) {
@@ -491,13 +493,14 @@ pub fn vcf_text(rng: &mut Rng, refs: &[Reference], spec: &VcfSpec) -> Vec<u8> {
                 info.push("DB".to_string());
             }
             if rng.chance(1, 4) {
-                info.push(format!("AA={}", rng.pick(&["A", "C", "G", "T", "ACG", "."])));
+                // (a lone `.` as a single INFO value makes the BCF encoder hit a todo!() on the pinned tree: left out)
+                info.push(format!("AA={}", rng.pick(&["A", "C", "G", "T", "ACG", "N"])));
             }
             if rng.chance(1, 6) {
                 info.push(format!("CH={}", rng.pick(&["x", "Y", "7"])));
             }
             if rng.chance(1, 5) {
-                info.push(format!("NS={}", rng.pick(&["a", "a,b", "note%3Bwith%3Dstuff,b", "x,.,z"])));
+                info.push(format!("NT={}", rng.pick(&["a", "a,b", "note%3Bwith%3Dstuff,b", "x,.,z"])));
             }
             if symbolic {
                 info.push("SVTYPE=DEL".to_string());
@@ -522,7 +525,7 @@ pub fn vcf_text(rng: &mut Rng, refs: &[Reference], spec: &VcfSpec) -> Vec<u8> {
                 if rng.chance(7, 8) {
                     keys.push("GT");
                 }
-                for k in ["GQ", "DP", "AD", "PL", "FT", "HQ"] {
+                for k in ["GQ", "DP", "AD", "PL", "FT", "HF"] {
                     if rng.chance(1, 2) {
                         keys.push(k);
                     }
@@ -532,21 +535,19 @@ pub fn vcf_text(rng: &mut Rng, refs: &[Reference], spec: &VcfSpec) -> Vec<u8> {
                 }
                 let _ = write!(s, "\t{}", keys.join(":"));
                 let alleles = n_alt + 1;
+                let ploidy = *rng.pick(&[2usize, 2, 2, 2, 1, 3]);
                 for _ in 0..spec.samples {
                     let mut vals: Vec<String> = Vec::new();
                     for k in &keys {
                         let v = match *k {
                             "GT" => {
-                                let a = rng.usize_below(alleles);
-                                let b = rng.usize_below(alleles);
-                                match rng.below(6) {
-                                    0 => "./.".to_string(),
-                                    1 => format!("{a}|{b}"),
-                                    2 => format!("{a}"),
-                                    3 => format!("{a}/{b}/{}", rng.usize_below(alleles)),
-                                    4 => format!("./{b}"),
-                                    _ => format!("{a}/{b}"),
-                                }
+                                // one ploidy per record: a triploid next to a diploid call is written by the BCF
+                                // writer in a form the BCF readers cannot decode (see known_problem_items)
+                                let sep = if rng.chance(1, 3) { '|' } else { '/' };
+                                let calls: Vec<String> = (0..ploidy)
+                                    .map(|_| if rng.chance(1, 10) { ".".to_string() } else { rng.usize_below(alleles).to_string() })
+                                    .collect();
+                                calls.join(&sep.to_string())
                             }
                             "GQ" => match rng.below(4) {
                                 0 => ".".to_string(),
@@ -575,16 +576,29 @@ pub fn vcf_text(rng: &mut Rng, refs: &[Reference], spec: &VcfSpec) -> Vec<u8> {
                                 }
                             }
                             "FT" => rng.pick(&["PASS", "q10", ".", "lowGQ"]).to_string(),
-                            "HQ" => match rng.below(3) {
-                                0 => ".".to_string(),
+                            // (never `.`: the BCF writer rejects a float-array FORMAT series in which every
+                            // sample is missing: InvalidInput "missing float array values")
+                            "HF" => match rng.below(3) {
+                                0 => "0.5,1.5".to_string(),
                                 1 => "58.5,50".to_string(),
-                                _ => format!("{},{}", rng.below(60), rng.pick(&[".", "3.25", "0"])),
+                                _ => format!("{},{}", rng.below(60), rng.pick(&["7.75", "3.25", "0"])),
                             },
                             _ => unreachable!(),
                         };
                         vals.push(v);
                     }
-                    // trailing missing values may be dropped in VCF; keep them explicit (canonical)
+                    // a sample whose values are ALL missing is re-emitted by the VCF writer as an empty column,
+                    // which read_record_buf then rejects (see known_problem_items): keep one concrete value
+                    if vals.iter().all(|v| v == ".") {
+                        vals[0] = match keys[0] {
+                            "GT" => vec!["0"; ploidy].join("/"),
+                            "FT" => "PASS".to_string(),
+                            "AD" => (0..alleles).map(|_| "1").collect::<Vec<_>>().join(","),
+                            "PL" => (0..alleles * (alleles + 1) / 2).map(|_| "0").collect::<Vec<_>>().join(","),
+                            "HF" => "1,2".to_string(),
+                            _ => "5".to_string(),
+                        };
+                    }
                     let _ = write!(s, "\t{}", vals.join(":"));
                 }
             }
